@@ -431,6 +431,9 @@ fn run_once<T: Sc, F: Factory<T>>(sc: &Scenario, rep: &mut RunReport, sample: bo
                                         }
                                     }
                                 } else {
+                                    if std::env::var("VPSIM_DEBUG_DIV").is_ok() {
+                                        eprintln!("DIVERGENCE idx={} faults={:?} evfrom {} vs {} lens {} {} term {} vs {} evals {} vs {}", sc.index, sc.faults, st.ev_from, t.ev_from, a.len(), b.len(), f.termination, t.termination, f.evaluations, t.evaluations);
+                                    }
                                     rep.probe("fit_tap_divergence");
                                 }
                             }
